@@ -6,6 +6,7 @@ module G = GroupAdmission
 module S = GroupRtspShell
 module A = GroupApiRequest
 module D = GroupInputContent
+module W = GroupShellWrites
 
 let int_tok s = (* n5 = -5 *)
   if String.length s > 0 && s.[0] = 'n' then - (int_of_string (String.sub s 1 (String.length s - 1)))
@@ -227,7 +228,27 @@ let run_case cfg ops =
         let suffix = match api with
           | Some (_, sfx) -> sfx
           | None -> "" in
+        (* rp.S.N.wK / rs.S.N.wK / ap.S.N.w1 / pl.N.w: the K-th write of the server shell fails (and every later one):
+           the arrival amounts to the events write_fail_events gives; the result shown is that of the first one *)
+        let wfail =
+          let is_w t = String.length t > 1 && t.[0] = 'w' in
+          let num t = nat_of_int (int_of_string (String.sub t 1 (String.length t - 1))) in
+          let base_st = !ds.D.ds_shell.S.cs_base in
+          match f.(0) with
+          | "rp" when Array.length f > 3 && is_w f.(3) -> Some (W.write_fail_events base_st W.WRtmpPub (n_of f.(1)) (n_of f.(2)) (num f.(3)))
+          | "rs" when Array.length f > 3 && is_w f.(3) -> Some (W.write_fail_events base_st W.WRtmpSub (n_of f.(1)) (n_of f.(2)) (num f.(3)))
+          | "ap" when Array.length f > 3 && is_w f.(3) -> Some (W.write_fail_events base_st W.WRtspAnnounce (n_of f.(1)) (n_of f.(2)) (num f.(3)))
+          | "pl" when Array.length f > 2 && f.(2) = "w" -> Some (W.write_fail_events base_st W.WRtspPlay (n_of "0") (n_of f.(1)) (nat_of_int 1))
+          | _ -> None in
+        let (de, shown, rest) = match wfail with
+          | Some (S.CE e :: rest) -> (D.DE (S.CE e), e, rest)
+          | _ -> (de, shown, []) in
         let ((ds1, dr), ns) = D.dstep fsdp fsh fx cf !ds de in
+        let (ds1, ns) = match dr with
+          | D.DR (G.RAcc) ->
+            (* the command went through: the failed write closes the connection *)
+            Stdlib.List.fold_left (fun (d, acc) ce -> let ((d2, _), n2) = D.dstep fsdp fsh fx cf d (D.DE ce) in (d2, acc @ n2)) (ds1, ns) rest
+          | _ -> (ds1, ns) in
         (* a relay pull whose url cannot even be parsed / dialled: the attempt that was started reports its failure at once *)
         let self_failing = f.(0) = "spull" && Array.length f > 4 && (f.(4) = "bad" || f.(4) = "badrtsp" || f.(4) = "http") in
         let (ds1, ns) = match dr with
